@@ -53,6 +53,8 @@ def scn(sym, cov, parties, buf, cancel=None, native=False, eager=False, T=1, J=2
     send_order: list = []  # items in the order their send call STARTED
     recv_log: list = []  # (party, item) in completion order
     rwait: list = []  # parties currently inside a blocking receive, in call order
+    waits: list = []  # one record per blocking receive call: party, outcome ('item' | 'cancelled' | 'eos' | 'closed' | None)
+    wait_id: dict = {}
     swait: list = []  # items currently inside a blocking send, in call order
     overtaken: list = []  # (winner party, [parties ahead]) for receive
     s_overtaken: list = []  # (item received, [items whose send was blocked earlier and are still blocked])
@@ -101,9 +103,11 @@ def scn(sym, cov, parties, buf, cancel=None, native=False, eager=False, T=1, J=2
             for (_p, it) in recv_log:
                 if it // 10 == item // 10 and it > item:
                     bad("sender-order-violated", {"got": item, "after": it})
-            ahead = list(rwait[: rwait.index(i)]) if i in rwait else []
+            ahead = [wait_id[a] for a in rwait[: rwait.index(i)]] if i in rwait else []
             overtaken.append((i, ahead))
-            blocked_before = [it for it in swait if it != item and send_order.index(it) < send_order.index(item)] if item in send_order else []
+            already = [it for (_p, it) in recv_log]
+            # senders that were blocked earlier, are still inside send() and whose item has NOT been received yet
+            blocked_before = [it for it in swait if it != item and it not in already and send_order.index(it) < send_order.index(item)] if item in send_order else []
             s_overtaken.append((item, blocked_before))
             recv_log.append((i, item))
 
@@ -238,6 +242,8 @@ def scn(sym, cov, parties, buf, cancel=None, native=False, eager=False, T=1, J=2
                                     continue
                             else:
                                 rwait.append(i)
+                                wait_id[i] = len(waits)
+                                waits.append({"party": i, "outcome": None})
                                 state["rx_c0_%d" % i] = loop.cycles
                                 try:
                                     item = await rx.receive()
@@ -248,6 +254,7 @@ def scn(sym, cov, parties, buf, cancel=None, native=False, eager=False, T=1, J=2
                         except ClosedResourceError:
                             if i in rwait:
                                 rwait.remove(i)
+                                waits[wait_id[i]]["outcome"] = "closed"
                             if i in open_rx:
                                 bad("closed-error-on-open-handle", i)
                             cov.hit("closed-by-other-task")
@@ -256,6 +263,7 @@ def scn(sym, cov, parties, buf, cancel=None, native=False, eager=False, T=1, J=2
                         except EndOfStream:
                             if i in rwait:
                                 rwait.remove(i)
+                                waits[wait_id[i]]["outcome"] = "eos"
                             if open_tx:
                                 bad("end-of-stream-with-open-senders", sorted(open_tx))
                             # an item already handed to another blocked receiver (in its slot, that task not yet
@@ -273,10 +281,12 @@ def scn(sym, cov, parties, buf, cancel=None, native=False, eager=False, T=1, J=2
                         except BaseException:
                             if i in rwait:
                                 rwait.remove(i)
+                                waits[wait_id[i]]["outcome"] = "cancelled"
                             raise
                         on_receive(i, item)
                         if i in rwait:
                             rwait.remove(i)
+                            waits[wait_id[i]]["outcome"] = "item"
                         stats_ok("receive")
                     ended[i] = "done"
             finally:
@@ -369,6 +379,9 @@ def scn(sym, cov, parties, buf, cancel=None, native=False, eager=False, T=1, J=2
         raise Violation("liveness:Deadlock", {"rwait": list(rwait), "swait": list(swait), "open_tx": sorted(open_tx), "open_rx": sorted(map(str, open_rx))})
     except CycleBudget:
         raise Violation("liveness:CycleBudget")
+    import os
+    if os.environ.get("SYMX_DEBUG"):
+        print("DEBUG recv_log", recv_log, "send_order", send_order, "sends", sends, "overtaken", overtaken, "s_overtaken", s_overtaken, "ended", ended, "trace", state.get("trace"))
     chk(not viol, viol[0][0] if viol else "", viol)
     got = [it for (_p, it) in recv_log] + list(state["drained"])
     # exactly once: every item whose send completed is received, or was still buffered when the
@@ -385,9 +398,11 @@ def scn(sym, cov, parties, buf, cancel=None, native=False, eager=False, T=1, J=2
         for b in range(a):
             chk(not (got[a] // 10 == got[b] // 10 and got[b] > got[a]), "sender-order-violated", got)
     # blocked receivers are served in the order in which they started waiting
+    # (an earlier waiter that was handed its item before but has not resumed yet is still "ahead" in the log; what
+    # must not happen is that a later waiter is served while an earlier, live one ends up with nothing)
     for (w, ahead) in overtaken:
         for a in ahead:
-            chk(ended.get(a) == "cancelled", "receiver-overtaken", {"served": w, "ahead": a, "ended": ended.get(a)})
+            chk(waits[a]["outcome"] in ("item", "cancelled"), "receiver-overtaken", {"served": w, "ahead_party": waits[a]["party"], "its_wait_ended": waits[a]["outcome"]})
     # blocked senders are served in the order in which they started waiting
     for (item, before) in s_overtaken:
         for it in before:
